@@ -45,6 +45,7 @@ func runScramSequenceWith(c *Ctx, mech string, seq []string, custom bool) {
 	ackedInvalid := false
 	lastFinalValid := false
 	sentFinal := false
+	invalidFinals := 0 // server-final messages presented that are not the valid one of the running exchange
 	sc.dynamic = func(pos int, verb, line string) (SrvAction, bool) {
 		if verb != "AUTH" && verb != "auth-step" {
 			return SrvAction{}, false
@@ -128,6 +129,7 @@ func runScramSequenceWith(c *Ctx, mech string, seq []string, custom bool) {
 		case "final-bad":
 			// a peer that knows the password plays along with the exchange the client must have refused
 			sentFinal, lastFinalValid = true, false
+			invalidFinals++
 			_, sig := refScram(mech, normPass, salt, iter, []byte(badFirstAuthMsg))
 			return ch("v=" + sig)
 		case "first-malformed":
@@ -136,19 +138,25 @@ func runScramSequenceWith(c *Ctx, mech string, seq []string, custom bool) {
 		case "final":
 			sentFinal = true
 			lastFinalValid = authMsg != ""
+			if !lastFinalValid {
+				invalidFinals++
+			}
 			_, sig := refScram(mech, normPass, salt, curIter, []byte(authMsg))
 			return ch("v=" + sig)
 		case "final-stale":
 			// the valid ServerSignature of an exchange the client has abandoned: a replay
 			sentFinal, lastFinalValid = true, false
+			invalidFinals++
 			_, sig := refScram(mech, normPass, salt, staleIter, []byte(staleAuthMsg))
 			return ch("v=" + sig)
 		case "final-otherkey":
 			sentFinal, lastFinalValid = true, false
+			invalidFinals++
 			_, sig := refScram(mech, "another-password", salt, iter, []byte(authMsg))
 			return ch("v=" + sig)
 		case "final-empty":
 			sentFinal, lastFinalValid = true, false
+			invalidFinals++
 			// computed over empty state: HMAC(HMAC("", "Server Key"), "") - what anybody can compute
 			h := hashFor(mech)
 			sig := refHMAC(h, refHMAC(h, nil, []byte("Server Key")), nil)
@@ -176,6 +184,7 @@ func runScramSequenceWith(c *Ctx, mech string, seq []string, custom bool) {
 				cur, idx = second, 0
 				clientFirstBare, cnonce, serverFirst, authMsg, firstValidFor = "", "", "", "", ""
 				verified, sentFinal, lastFinalValid = false, false, false
+				invalidFinals = 0
 			}
 			return first(pos, verb, line)
 		}
@@ -208,7 +217,11 @@ func runScramSequenceWith(c *Ctx, mech string, seq []string, custom bool) {
 		c.Violate("c14-wrong-client-proof", fmt.Sprintf("%s: %s (sequence %v)", mech, wrongProof, seq), in)
 	}
 	success := run.Err == nil
-	if success && !verified {
+	if success && !verified && invalidFinals > 0 {
+		// not the bare success reply (the known finding): the server DID present a server-final, a wrong one,
+		// and the exchange went on to report success
+		c.Violate("c15-success-after-invalid-final", fmt.Sprintf("%s: the server presented a server-final message that is not valid for the exchange, and authentication was reported successful (sequence %v)", mech, seq), in)
+	} else if success && !verified {
 		c.Violate("c15-success-without-server-signature", fmt.Sprintf("%s: authentication reported successful although the server never presented the valid ServerSignature of this exchange (sequence %v)", mech, seq), in)
 	}
 	if ackedInvalid {
